@@ -5,9 +5,9 @@ S=/var/tmp/seed/$id; O=/verif/seeded/$id
 mkdir -p $O; cp $S/out/patch.diff $O/; rm -rf $O/demo; cp -r $S/out/demo $O/ 2>/dev/null; cp $S/out/NOTES.md $O/ 2>/dev/null
 echo "== $id: suite with the change"; suite=$(python3 /var/tmp/seedtools/run_suite.py $S/wt 2>&1 | tail -1); echo "$suite"
 echo "== demo with the change"; (cd $S/out/demo && timeout 600 bash ./run.sh $S/wt > /tmp/demo_$id.with 2>&1); with=$?; tail -2 /tmp/demo_$id.with
-git -C $S/wt stash -q; cmake --build $S/wt/_build > /dev/null 2>&1
+git -C $S/wt apply -R $S/out/patch.diff; cmake --build $S/wt/_build > /dev/null 2>&1
 echo "== demo without the change"; (cd $S/out/demo && timeout 600 bash ./run.sh $S/wt > /tmp/demo_$id.without 2>&1); without=$?; tail -2 /tmp/demo_$id.without
-git -C $S/wt stash pop -q; 
+git -C $S/wt apply $S/out/patch.diff; 
 echo "demo exit with=$with without=$without"
 res=""
 for p in $props; do r=$(/verif/tools/try_mutant.sh seed$id $O/patch.diff $p 2>&1 | grep MUTANT); echo "$r"; res="$res | $r"; done
